@@ -145,7 +145,23 @@ pub fn file(ctx: &Ctx) -> Stats {
             writer: Writer::Public,
         };
         let sc = Scratch::new(ctx, "c04f");
-        let inp = write_input(&sc, "in", &recs, &Container::FastaSingle, None, &mut rng);
+        // every third file arrives in another container the reader accepts (wrapped, CRLF, FASTQ, multi-member gzip)
+        let fastq_ok = recs.iter().all(|r| !r.seq.is_empty());
+        let cont = match idx % 3 {
+            0 => match rng.below(4) {
+                0 => Container::FastaWrapped(rng.usize(1, 70)),
+                1 => Container::FastaCrlf,
+                2 if fastq_ok => Container::Fastq,
+                3 if fastq_ok => Container::FastqWrapped(rng.usize(1, 50)),
+                _ => Container::FastaSingle,
+            },
+            _ => Container::FastaSingle,
+        };
+        let gz = if idx % 3 == 0 && rng.chance(1, 2) { Some(refmodel::ser::GzLayout::Multi(rng.usize(2, 5))) } else { None };
+        if idx % 3 == 0 {
+            st.class("container variant");
+        }
+        let inp = write_input(&sc, "in", &recs, &cont, gz.as_ref(), &mut rng);
         let outp = sc.path("out.kmers");
         let case = || Json::obj().set("cfg", cfg.json()).set("records", recs_json(&recs));
         let total_windows: usize = recs.iter().map(|r| model::windows(&r.seq, k).len()).sum();
